@@ -516,6 +516,14 @@ func (c *Context) onRestart(message *RestartMessage, behavior vivid.Behavior) {
 		if c.zombie {
 			c.mailbox.Resume()
 		}
+		// 已因显式 Kill 处于停止流程中：重启被忽略，但监督者为本轮监督挂起的子 Actor 不会再由重启恢复，
+		// 其毒杀消息滞留在暂停的邮箱中，需恢复其邮箱以使停止流程得以完成
+		if c.restarting == nil && atomic.LoadInt32(&c.state) == killing {
+			resume := messages.CommandResumeMailbox.Build()
+			for _, child := range c.Children() {
+				c.tell(true, child, resume)
+			}
+		}
 		return
 	}
 	c.restarting = message
@@ -550,6 +558,13 @@ func (c *Context) onRestart(message *RestartMessage, behavior vivid.Behavior) {
 
 func (c *Context) onKill(message *vivid.OnKill, behavior vivid.Behavior) {
 	if !c.zombie && !atomic.CompareAndSwapInt32(&c.state, running, killing) {
+		// 已处于停止流程中（例如优雅停止正在等待子 Actor 终止）时收到立即终止：仍需将其下达给子 Actor。
+		// 因监督而被挂起的子 Actor，其毒杀消息滞留在暂停的邮箱中，若不转发，停止流程将永远无法完成
+		if !message.Poison && atomic.LoadInt32(&c.state) == killing {
+			for _, child := range c.Children() {
+				c.Kill(child, false, message.Reason)
+			}
+		}
 		return
 	}
 	c.doKill(message, behavior)
